@@ -231,6 +231,32 @@ class Check(PropertyCheck):
                     break
         return fails
 
+    def oracle_trees(self, n):
+        """trunks with branches: every arrow head that ends a line is one polygon, none is left as text or drawn twice"""
+        fails = []
+        trees = [gen.tree(self.rng) for _ in range(n)]
+        trees = [(gen.place(t, self.rng.below(6), self.rng.below(3)), a) for t, a in trees]
+        res = common.run_impl("lib", ["%d settings b=0,s=0,d=0 %s" % (i, hx(t)) for i, (t, a) in enumerate(trees)])
+        for i, (t, arrows) in enumerate(trees):
+            self.evaluations += 1
+            self.nontrivial.add(("tree", t))
+            case = {"input": t, "input_hex": hx(t), "kind": "tree", "arrows": arrows}
+            r = res[str(i)]
+            if not r.startswith("ok "):
+                fails.append(Failure("conversion did not return", case))
+                continue
+            try:
+                root = svgcanon.parse(unhx(r[3:]))
+            except svgcanon.ParseError:
+                continue
+            els = [e for _, e in svgcanon.flat_geometry(root)]
+            polys = [e for e in els if e.tag == "polygon"]
+            stray = [e.text for e in els if e.tag == "text" and e.text.strip() in (">", "<", "v", "V", "^")]
+            if len(polys) != arrows or stray:
+                fails.append(Failure("a drawing with %d arrow heads has %d polygons and %d arrow characters left as text" % (arrows, len(polys), len(stray)),
+                                     case, {"polygons": [p.attrs.get("points") for p in polys][:6]}))
+        return fails
+
     def oracle_runs(self, cases):
         fails = []
         built = [draw_run(d, ln, ch, k, n) for (_, d, ln, ch, k, n) in cases]
@@ -354,9 +380,12 @@ class Check(PropertyCheck):
         fails = self.oracle_runs(self.run_cases())
         fails += self.oracle_corners(self.corner_cases())
         fails += self.oracle_multi_bullets(self.multi_bullet_cases())
+        fails += self.oracle_trees(self.scale(150, 2500))
         return fails
 
     def replay_case(self, case):
+        if case.get("kind") == "tree":
+            return []
         if case.get("kind") == "multi":
             return self.oracle_multi_bullets([tuple(case["case"])])
         if case.get("kind") == "corner":
